@@ -20,6 +20,10 @@ CLAIMED = {
          PBT + ": same histories with failing evaluations and malformed annotations; oracle = no payload names the policy and its model state is unchanged",
          "Generated subsets of managed policies fail to evaluate or carry a malformed annotation while installed; the check asserts that no update/delete names them, that their installed state is unchanged after the run, and that every delete names an installed policy that is not marked. One known finding (malformed annotation => delete) is listed and reported as KNOWN-FINDING.",
          "As C01. The IRR-side failure modes (unknown as-set, error responses, unreachable) are exercised by the engine-B part when present."),
+ "C04": ("fault_enumeration", "DESIGN.md section 3 C04",
+         "fault enumeration inside property-based testing (proptest): every position of the agent's request sequence x every fault kind for N = 0..5 loads is enumerated against a recording fake Junos; policy contents are generated; oracle = invariant over the RPC names received and the run's result",
+         "The agent's real Updater::run (real session over an in-memory transport, real evaluator against a fake IRRd, pipelined loads) runs against a fake Junos that injects one fault (rpc-error, truncated reply, wrong root, not XML, unknown message-id, close before / after the reply) at one request index; positions x kinds are enumerated completely for each N, load replies are withheld until the last load was received. Invariant: commit only after a positively acknowledged open and only if every earlier load reply was positive, never after a failed step; the run reports failure iff a step failed; success only with positive commit, close-configuration and close-session; nothing reaches the live database without a commit.",
+         "The fake Junos' reply shapes and open/load/commit semantics are modelled. A 15 s watchdog (all peers in-process) classifies a run that never completes."),
  "C05": ("exploration", "DESIGN.md section 3 C05",
          PBT + ": generated schedules on a harness-owned single-threaded executor (schedule = generated value; wakers honoured; quiescence = deterministic deadlock verdict); oracle = tag echo per message-id, id freshness, all resolved at quiescence",
          "The real Session over an in-memory transport is driven by an executor whose every step (poll a woken task, release the next reply in a generated permutation, inject a stray reply, let one gated send through) is chosen by a generated schedule; reply futures live in separate tasks, joined groups or sequential groups. Checks fresh message-ids, that each caller gets the reply tagged for its id, nobody waits forever, strays are never delivered, and a further request still works.",
@@ -52,6 +56,10 @@ CLAIMED = {
          PBT + " and coverage-guided fuzzing (cargo-fuzz/libFuzzer targets over the same entry function): mutated valid messages and raw bytes; oracle = call returns, no panic/overflow, no unresolved future, other request's reply still delivered",
          "Valid hellos/replies from the grammars damaged by generated mutation sequences (truncate, delete, flip, insert markup, duplicate element, absurd numbers, invalid UTF-8, 11000-deep nesting, splice, wrong namespace, missing/doubled delimiter) or replaced by raw bytes, fed through a real session with a second outstanding request whose valid reply arrives afterwards. Builds keep debug assertions and overflow checks.",
          "Bytes are handed over as one framed message (framing is C06). Non-termination inside one call is caught by the watchdog / libFuzzer -timeout and reported as inconclusive until reproduced."),
+ "C15": ("exploration", "DESIGN.md section 3 C15",
+         PBT + ": generated sets of managed policies containing unevaluable members, run through the agent's real Updater::run with the real evaluator; oracle = run succeeds, commit received, every evaluable policy installed with exactly its RPSL set",
+         "2..7 policies with at least one valid-but-unevaluable expression (unknown as-set, IRR E/F, unknown route-/filter-set, PeerAS, AS-path regexp, attribute match, set AND regexp) at generated positions; every unevaluable kind alone at every position is enumerated first. The confirmed defects (PeerAS unimplemented!(), dependency todo!() unwinding the task that evaluates all policies) were repaired and are regression inputs.",
+         "Nothing is asserted about the unevaluable policy itself (C03). Unknown route-/filter-sets evaluate to the empty set by the library's documented design."),
  "C16": ("exploration", "DESIGN.md section 3 C16",
          PBT + ": generated running configurations rendered raw (attribute order, duplicated xmlns:jcmd, jcmd prefix, comment decoration, body shape under generator control); oracle = independent selection written from the property text, expressions compared by AST",
          "0..8 generated policy statements per configuration through the agent's real session and candidate reader; the selected (name, expression) pairs must equal an independent selection (active, annotated with a parseable expression, body exactly a default reject); duplicate selected names must be rejected.",
